@@ -239,12 +239,17 @@ class C06:
                     out.append((n, k, mid))
         return out
 
+    def alphabet_random(self):
+        # ids 0 and "absent" are different ids; 255 is the largest
+        return self.alphabet() + [(n, k, mid) for n in (2, 3) for k in range(1, n + 1) for mid in (0, 255)]
+
     def mk(self, rng, n, k, mid, tag, big=0):
-        payload = bytes([48 + n, 48 + k, 48 + (mid or 0)]) + tag + (gen.random_alphabet(rng, big) if big else b"")
+        payload = bytes([48 + n, 48 + k, 48 + (mid or 0) % 40]) + tag + (gen.random_alphabet(rng, big) if big else b"")
         return ais.sentence(payload, nf=n, fn=k, mid=mid, fill=0)
 
     def cases(self, tier, rng):
         alpha = self.alphabet()
+        alpha_r = self.alphabet_random()
         depth = 3 if tier == "quick" else 4
         extra = [b"garbage", ais.sentence(b"15M", fill=0)]
         letters = [self.mk(rng, n, k, mid, b"x") for (n, k, mid) in alpha] + extra
@@ -269,12 +274,12 @@ class C06:
                 if cur and r < 0.55:
                     n, k, mid = cur
                     k2 = k + 1 if rng.random() < 0.75 else rng.randrange(1, n + 1)
-                    mid2 = mid if rng.random() < 0.85 else rng.choice([None, 1, 2])
+                    mid2 = mid if rng.random() < 0.85 else rng.choice([None, 0, 1, 2])
                     k2 = min(k2, n)
                     ops.append(L(self.mk(rng, n, k2, mid2, bytes([65 + j % 26]), big), 0, dec))
                     cur = (n, k2, mid2) if k2 < n else (cur if rng.random() < 0.3 else None)
                 elif r < 0.8:
-                    n, k, mid = rng.choice(alpha)
+                    n, k, mid = rng.choice(alpha_r)
                     ops.append(L(self.mk(rng, n, k, mid, bytes([65 + j % 26]), big), 0, dec))
                     cur = (n, k, mid)
                 else:
@@ -363,6 +368,36 @@ class C17:
                     if j != i:
                         ops.append(f"#v{i}.{j} " + L(l, 1, 1 if ref_sentence(l)[0] == "ok" and ref_sentence(l)[1]["nf"] == 1 else 0))
             yield ("drop-one", ops)
+        # long runs of no-trace lines inside an open group, and no-trace lines that are long themselves
+        for m in ([1, 2, 5, 7, 8, 9, 15, 16, 17, 31, 32, 33, 64, 65, 100, 255, 256, 257] if tier == "quick" else list(range(1, 300))):
+            p, f = gen.valid_message_payload(rng, rng.choice([1, 5, 21]))
+            if rng.random() < 0.4:
+                p, f = p + gen.random_alphabet(rng, rng.choice([100, 250])), 0
+            n = rng.choice([2, 3, 4, 7])
+            mid = rng.choice([None, 1, 7])
+            _, fl = frag_lines(rng, p, f, n, mid)
+            cut = rng.randrange(1, n)
+            kinds = rng.choice(["any", "rejected", "unfragmented", "big-foreign"])
+            burst = []
+            while len(burst) < m:
+                if kinds == "big-foreign":
+                    # a fragment of another group (different id, not a first fragment) with a long payload
+                    l = ais.sentence(gen.random_alphabet(rng, rng.choice([150, 300, 380])), nf=5, fn=rng.choice([2, 3, 5]),
+                                     mid=(mid or 0) + 1, fill=0)
+                else:
+                    l = noise_line(rng)
+                    ok = ref_sentence(l)[0] == "ok"
+                    if (kinds == "rejected" and ok) or (kinds == "unfragmented" and not ok):
+                        continue
+                burst.append(l)
+            dec = rng.randrange(2)
+            ops = ["N 0", "N 1"]
+            for i, l in enumerate(fl):
+                if i == cut:
+                    ops += ["#noise " + L(x, 0, dec) for x in burst]
+                ops.append(f"#f{i} " + L(l, 0, dec))
+            ops += [f"#g{i} " + L(l, 1, dec) for i, l in enumerate(fl)]
+            yield ("burst", ops)
         for _ in range(40 if tier == "quick" else 600):
             a, b = self.history(rng), self.history(rng)
             ops = ["N 0", "N 1", "N 2", "N 3"]
@@ -382,6 +417,24 @@ class C17:
 
     def judge(self, rep, cfg, label, ops, impl, model):
         rep.count(label)
+        if label == "burst":
+            tagged = {op.split(" ")[0]: a for op, a in zip(ops, impl) if op.startswith("#f") or op.startswith("#g")}
+            nnoise = sum(1 for op in ops if op.startswith("#noise"))
+            for k, a in tagged.items():
+                if k.startswith("#f"):
+                    rep.evaluations += 1
+                    other = tagged["#g" + k[2:]]
+                    if a != other:
+                        rep.violation(f"C17: {nnoise} no-trace lines inside an open group change the outcome of the group's own fragments",
+                                      {"cfg": cfg, "ops": [strip(o) for o in ops], "impl": [a, other]})
+                        return
+            for op, a, m in zip(ops, impl, model):
+                if op.startswith("#") and (a.rsplit(" st=", 1)[-1] != m.rsplit(" st=", 1)[-1] or a.split(" ")[0] != m.split(" ")[0]):
+                    rep.violation("C17: model and implementation disagree on outcome/state",
+                                  {"cfg": cfg, "ops": [strip(o) for o in ops[:ops.index(op) + 1]], "impl": a, "model": m})
+                    return
+            rep.nontrivial.add((nnoise, ops[2][:60]))
+            return
         if label == "two-parsers":
             tagged = {op.split(" ")[0]: a for op, a in zip(ops, impl) if op.startswith("#")}
             for k, a in tagged.items():
@@ -428,6 +481,37 @@ class C17:
                 rep.nontrivial.add((tuple(ops[:len(base) + 1]), i))
         if len(rep.samples) < 4:
             rep.sample({"history": [op_line(o).decode("latin1")[:60] for o, _ in base], "answers": [a.split(" ")[0] for _, a in base]})
+
+
+def capacity_boundaries(rng):
+    """Every fixed capacity of the no-alloc build, approached from both sides, one case per size."""
+    ops = []
+    for t, lo, hi in ((6, 100, 126), (8, 100, 126)):
+        for n in range(lo, hi):
+            f = gen.base_fields(t, rng, ais.LAYOUTS[t])
+            ops.append("M " + hexs(gen.full_payload(t, f) + rand_bytes(rng, n)))
+    for t in (12, 14):
+        for nchar in range(14, 27):
+            f = gen.base_fields(t, rng, ais.LAYOUTS[t])
+            bits = [(c >> (5 - i)) & 1 for c in gen.structured_chars(rng, nchar) for i in range(6)]
+            ops.append("M " + hexs(gen.full_payload(t, f) + ais.bits_to_bytes(bits)))
+    for t, w in ((7, 32), (13, 32), (20, 30)):
+        for k in range(0, 8):
+            f = gen.base_fields(t, rng, ais.LAYOUTS[t])
+            nbits = 40 + w * k
+            ops.append("M " + hexs(ais.bits_to_bytes(ais.pack(f, ais.LAYOUTS[t], 40)[:40] + [rng.getrandbits(1) for _ in range(w * k)])))
+    f = gen.base_fields(17, rng, ais.LAYOUTS[17])
+    for n in range(0, 130, 3):
+        ops.append("M " + hexs(gen.full_payload(17, f) + rand_bytes(rng, n)))
+    for n in range(376, 392):
+        ops += ["N 0", L(ais.sentence(gen.random_alphabet(rng, n), fill=0), 0, rng.randrange(2))]
+        a = rng.randrange(1, n)
+        ops += ["N 0", L(ais.sentence(gen.random_alphabet(rng, a), nf=2, fn=1, mid=1, fill=0), 0, 0),
+                L(ais.sentence(gen.random_alphabet(rng, n - a), nf=2, fn=2, mid=1, fill=0), 0, rng.randrange(2))]
+    for n in range(505, 520):
+        ops.append(f"U {rng.randrange(6)} {hexs(gen.random_alphabet(rng, n))}")
+    ops.append("N 0")
+    return ops
 
 
 def mixed_stream(rng, tier, n):
@@ -510,12 +594,7 @@ class C18:
         cfgs = core.CFGS
         n = 1500 if tier == "quick" else 20000
         ops = []
-        cdir = os.path.join(core.VERIF, "corpus", "C18")
-        if os.path.isdir(cdir):
-            import json
-            for fn in sorted(os.listdir(cdir)):
-                if fn.endswith(".json"):
-                    ops += json.load(open(os.path.join(cdir, fn)))["ops"]
+        ops += capacity_boundaries(rng)
         ops += mixed_stream(rng, tier, n)
         ans = {c: core.run_impl(c, ops) for c in cfgs}
         mod = {c: core.run_model(c, ops) for c in cfgs}
@@ -637,12 +716,8 @@ class C01:
         cfgs = core.CFGS
         ops = []
         import json
-        cdir = os.path.join(core.VERIF, "corpus", "C01")
-        if os.path.isdir(cdir):
-            for fn in sorted(os.listdir(cdir)):
-                if fn.endswith(".json"):
-                    ops += json.load(open(os.path.join(cdir, fn)))["ops"]
         scale = 1 if tier == "quick" else 12
+        ops += capacity_boundaries(rng)
         ops += mixed_stream(rng, tier, 1500 * scale)
         # every numbering after representative states
         for pre in ([], [(3, 1, 5)], [(3, 1, 5), (3, 2, 5)], [(9, 1, None), (9, 2, None), (9, 3, None)], [(2, 1, 1), (2, 2, 1)]):
@@ -755,6 +830,11 @@ class C20:
                             mixed.append(noise_line(rng).replace(b"\n", b" "))
                     ls = mixed
                 lines += ls if rng.random() < 0.7 else ls[:1]
+                if rng.random() < 0.35:
+                    # a sentence numbered outside 1..n right after a group: it must be handled on its own
+                    q_, g_ = gen.valid_message_payload(rng, rng.choice([1, 4, 18]))
+                    n_, k_ = rng.choice([(0, 1), (0, 1), (0, 0), (1, 2), (2, 3)])
+                    lines.append(ais.sentence(q_, fill=g_, nf=n_, fn=k_, mid=rng.choice([None, None, 1])))
             elif r < 0.6:
                 lines.append(b"")
             elif r < 0.7:
@@ -770,7 +850,7 @@ class C20:
                 lines.append(rand_bytes(rng, n, exclude=b"\n") [:n - len(tail)] + tail)
             elif r < 0.88:
                 p_, f_ = gen.valid_message_payload(rng)
-                lines.append(ais.sentence(p_, fill=f_, nf=rng.choice([0, 1, 1, 2]), fn=rng.choice([0, 2, 3, 255])))
+                lines.append(ais.sentence(p_, fill=f_, nf=rng.choice([0, 0, 1, 1, 2]), fn=rng.choice([0, 1, 1, 2, 3, 255])))
             elif r < 0.9:
                 lines.append(rand_valid_sentence(rng) .replace(b"\n", b" "))
             elif r < 0.95:
@@ -825,8 +905,11 @@ class C20:
             for i, r in enumerate(recs):
                 la, ra = impl[2 + 2 * i], impl[3 + 2 * i]
                 lm = model[2 + 2 * i]
-                if la.split(" ")[0] != lm.split(" ")[0]:
+                if la != lm:
+                    # outcome, sentence fields, decoded message and parser state: the library that defines the
+                    # expected records must be the modelled one on every line of the stream
                     tie_ok = False
+                    ctx_tie = {"line": r[:80].hex(), "library": la[:300], "model": lm[:300]}
                 if ra.startswith("O "):
                     exp_out.append(ra[2:])
                 elif ra.startswith("E "):
@@ -847,7 +930,9 @@ class C20:
             elif got_err != exp_err:
                 rep.violation("C20: stderr records differ from one record per rejected line, in order", ctx)
             elif not tie_ok:
-                rep.violation("C20: model and library disagree on a line's outcome", ctx)
+                ctx.update(ctx_tie)
+                rep.violation("C20: model and library disagree on a line of the stream (the records the tool prints are "
+                              "the library's, so they are not the specified ones)", ctx)
             if exp_out and exp_err:
                 rep.nontrivial.add(data)
             if len(rep.samples) < 3 and exp_out and exp_err:
